@@ -41,6 +41,13 @@ type c04Parse struct {
 	Dest  vtree             `json:"dest"`
 	Files map[string]string `json:"files,omitempty"` // path -> content (--set-file)
 	Pairs []c04Pair         `json:"pairs,omitempty"` // grammar stream only
+	// round 4 (c04_set2.go): the case goes through the second model (CParse2 / CProbe)
+	V2         bool               `json:"v2,omitempty"`
+	SHex       string             `json:"s_hex,omitempty"`       // S in hex when it is not valid UTF-8 (JSON would mangle it)
+	NamesKnown bool               `json:"names_known,omitempty"` // the generator printed S from Pairs / NamePaths
+	NamePaths  [][]c04Seg         `json:"name_paths,omitempty"`
+	Reader     map[string]c04RVal `json:"reader,omitempty"` // synthetic RunesValueReader (ParseIntoFile / ParseFile)
+	Probes     [][]orStep         `json:"probes,omitempty"` // observe only these deep paths
 }
 
 // c04Assign: for the precedence oracle of simple flag mixtures.
